@@ -844,6 +844,18 @@ pub fn evaluate_crash(prop: &str, case: &Case, fault: &Fault) -> Vec<Failure> {
             let (f, _) = test_c03(&d, case, b, &image, level, &where_);
             out.extend(f);
         }
+        "C12" if at.powerloss.is_some() => {
+            let image = {
+                let fs = d.world.fs.borrow();
+                powerloss_image(&fs.trace, &fs.bases[0].1, idx, at.byte, at.powerloss.unwrap())
+            };
+            let policy = if b < d.steps.len() { d.steps[b].policy } else { case.policy };
+            if let Ok((_w, obs)) = recover(&image, &d.names, policy, &case.knobs) {
+                if let Some(msg) = batch_atomicity(&d, b, &obs) {
+                    out.push(fail("C12", "batch-torn-by-power-loss", b, msg));
+                }
+            }
+        }
         _ => {
             let image = os_image_at(&d, idx, at.byte);
             let mut stats = CrashStats::default();
